@@ -297,7 +297,7 @@ func abstractObs(w *world, bc *core.Blockchain) string {
 	// whitelisted fees: what the cache answers (getWhitelistFeeContracts) and what storage holds
 	fmt.Fprintf(&sb, " wlc=%s wls=%s", joinOrDash(whitelistCached(w, bc)), joinOrDash(whitelistStored(w, bc)))
 	// cached components: what the cache answers / what storage holds
-	fmt.Fprintf(&sb, " set=%s roles=%s mgmt=%s mdf=%s gpb=%s gpv=%s", settingsObs(w, bc), rolesObs(w, bc), mgmtObs(w, bc), mdfObs(w, bc), gpbObs(w, bc), gpvObs(w, bc))
+	fmt.Fprintf(&sb, " set=%s roles=%s mgmt=%s mdf=%s gpb=%s gpv=%s rw=%s", settingsObs(w, bc), rolesObs(w, bc), mgmtObs(w, bc), mdfObs(w, bc), gpbObs(w, bc), gpvObs(w, bc), rwObs(w, bc))
 	// policy (through the cache getters)
 	pico := bc.GetBaseExecFee() // picoGAS units after Faun
 	fmt.Fprintf(&sb, " fpb=%d eff=%d sp=%d", bc.FeePerByte(), pico, bc.GetStoragePrice())
@@ -607,6 +607,25 @@ func gpvObs(w *world, bc *core.Blockchain) string {
 		}
 	}
 	return joinOrDash(out)
+}
+
+// rwObs: the reward fields of every stored NEO account record: token:BalanceHeight:LastGasPerVote.
+func rwObs(w *world, bc *core.Blockchain) string {
+	var rw []string
+	bc.SeekStorage(nativeids.NeoToken, []byte{20}, func(k, si []byte) bool {
+		a, err := util.Uint160DecodeBytesBE(k)
+		if err != nil {
+			return true
+		}
+		nb, err := state.NEOBalanceFromBytes(si)
+		if err != nil {
+			return true
+		}
+		rw = append(rw, fmt.Sprintf("%s:%d:%s", w.tok(a), nb.BalanceHeight, nb.LastGasPerVote.String()))
+		return true
+	})
+	sort.Strings(rw)
+	return joinOrDash(rw)
 }
 
 // gpbObs: NEO.getGasPerBlock (cache, for the next block) / the stored records index:value.
